@@ -30,6 +30,8 @@ func init() {
 		Old: "\t\toperator := exchange.NewConcurrent(\n\t\t\tscan.NewVectorSelector(\n\t\t\t\tmodel.NewVectorPool(stepsBatch), selector, opts, offset, i, numShards), 2)", New: "\t\toperator := scan.NewVectorSelector(\n\t\t\t\tmodel.NewVectorPool(stepsBatch), selector, opts, offset, i, numShards)", Expect: "NewVectorSelector"})
 	mutant(Mutant{Rule: "R-RECOVERTOTAL", Name: "engine-recover-runtime-errors-only", File: "engine/engine.go",
 		Old: "\tcase error:\n\t\t*errp = errors.Wrap(err, \"unexpected error\")\n\tdefault:\n\t\t*errp = errors.Newf(\"unexpected error: %v\", e)\n", New: "", Expect: "recoverEngine"})
+	mutant(Mutant{Rule: "R-RECOVERTOTAL", Name: "no-recover-once-cancelled", File: "execution/exchange/coalesce.go",
+		Old: "\t\t\tdefer func() {\n\t\t\t\te := recover()\n\t\t\t\tif e == nil {", New: "\t\t\tdefer func() {\n\t\t\t\tif ctx.Err() != nil {\n\t\t\t\t\treturn\n\t\t\t\t}\n\t\t\t\te := recover()\n\t\t\t\tif e == nil {", Expect: "loadSeries"})
 	mutant(Mutant{Rule: "R-RECOVERTOTAL", Name: "coalesce-recover-errors-only", File: "execution/exchange/coalesce.go",
 		Old: "\t\t\t\tdefault:\n\t\t\t\t\terrChan <- errors.Newf(\"unexpected error: %v\", e)\n", New: "", Expect: "loadSeries"})
 }
@@ -453,6 +455,11 @@ func ruleRecoverTotal(p *core.Program) []core.Obligation {
 				return
 			}
 			key := core.FuncName(fn) + " recover()"
+			// recover() must be reached on every path of the handler: an early return before it re-raises the panic
+			if !allReturnsAfter(fn, call) {
+				obs = append(obs, core.Ob(rule, key, p.Pos(ins.Pos()), core.FuncName(fn), core.Violated, "the handler can return without having called recover(): on that path the panic continues and terminates the process"))
+				return
+			}
 			// find the nil test of the recovered value
 			var start *ssa.BasicBlock
 			for _, r := range core.Referrers(call) {
